@@ -159,12 +159,19 @@ pub fn run_by_labels<S: Scenario>(s: &S, labels: &[String]) -> Option<RunOut> {
     let mut choices = Vec::new();
     let mut points = Vec::new();
     let mut violation = None;
+    let mut li = 0usize;
     loop {
         let Some(cp) = s.next(&mut x) else { break };
-        let i = choices.len();
-        let alt = if i < labels.len() {
-            let want = labels[i].strip_prefix(&format!("{}=", cp.label))?;
-            cp.alts.iter().position(|a| a == want)?
+        // A label names the next choice point of its kind; choice points of other kinds that
+        // come first take their default (so a trace may list the history choices only).
+        let alt = if li < labels.len() {
+            match labels[li].strip_prefix(&format!("{}=", cp.label)) {
+                Some(want) => {
+                    li += 1;
+                    cp.alts.iter().position(|a| a == want)?
+                }
+                None => 0,
+            }
         } else {
             0
         };
@@ -176,7 +183,7 @@ pub fn run_by_labels<S: Scenario>(s: &S, labels: &[String]) -> Option<RunOut> {
         }
     }
     if violation.is_none() {
-        if choices.len() < labels.len() {
+        if li < labels.len() {
             return None;
         }
         if let Err(v) = s.finish(&mut x) {
